@@ -1245,4 +1245,60 @@ theorem hinv_run (evs : List HEv) (h : HS) (hi : HInv h) : HInv (h.run evs) := b
   | nil => exact hi
   | cons ev rest ih => exact ih _ (hinv_step h ev hi)
 
+/-! ### the handshake started from ANY phase in which both directions are open -/
+
+/-- a channel pair in ANY phase of its life in which both directions are open: established, or still starting up
+    (`paused = .starting`, `create()` suspended on an outstanding request, the server's session not started) -/
+structure BothOpen (a b : Chan) : Prop where
+  aS : a.sendSt = .opn
+  aR : a.recvSt = .opn
+  aC : a.sendChan.isSome = true
+  aI : CInv a
+  bS : b.sendSt = .opn
+  bR : b.recvSt = .opn
+  bC : b.sendChan.isSome = true
+  bI : CInv b
+
+def HS.ofPair (a b : Chan) : HS := { a := a, b := b }
+
+theorem hinv_ofPair (a b : Chan) (h : BothOpen a b) : HInv (HS.ofPair a b) := by
+  obtain ⟨h1, h2, h3, _, h5, h6, h7, _⟩ := h
+  constructor <;> simp [HS.ofPair, D3, h1, h2, h5, h6]
+  · constructor <;> simp [h1, h2, h3]
+  · constructor <;> simp [h5, h6, h7]
+
+theorem cinv_step (h : HS) (ev : HEv) (ha : CInv h.a) (hb : CInv h.b) : CInv (h.step ev).a ∧ CInv (h.step ev).b := by
+  unfold HS.step
+  split
+  · exact ⟨ha, hb⟩
+  · cases ev with
+    | app sideA o =>
+      cases sideA with
+      | true => exact ⟨appOp_inv o h.a ha, hb⟩
+      | false => exact ⟨ha, appOp_inv o h.b hb⟩
+    | deliver toB =>
+      cases toB with
+      | true =>
+        simp only
+        cases hab : h.ab with
+        | nil => exact ⟨ha, hb⟩
+        | cons m rest => exact ⟨ha, processMsg_inv m h.b hb⟩
+      | false =>
+        simp only
+        cases hba : h.ba with
+        | nil => exact ⟨ha, hb⟩
+        | cons m rest => exact ⟨processMsg_inv m h.a ha, hb⟩
+    | cleanup sideA =>
+      cases sideA with
+      | true => exact ⟨cleanup_inv .clean h.a ha, hb⟩
+      | false => exact ⟨ha, cleanup_inv .clean h.b hb⟩
+
+theorem cinv_run (evs : List HEv) (h : HS) (ha : CInv h.a) (hb : CInv h.b) :
+    CInv (h.run evs).a ∧ CInv (h.run evs).b := by
+  induction evs generalizing h with
+  | nil => exact ⟨ha, hb⟩
+  | cons ev rest ih =>
+    have := cinv_step h ev ha hb
+    exact ih _ this.1 this.2
+
 end AsyncsshModel.Lifecycle
